@@ -125,3 +125,24 @@ pub fn simultaneous_dial_tie_breaking(
 }
 
 pub use crate::network::verif_hooks::VerifBackoff;
+
+//
+// Socket injection (endpoint.rs)
+//
+
+type SocketFactory = Box<
+    dyn Fn(&std::net::UdpSocket) -> Option<std::sync::Arc<dyn quinn::AsyncUdpSocket>> + Send + Sync,
+>;
+
+static SOCKET_FACTORY: std::sync::RwLock<Option<SocketFactory>> = std::sync::RwLock::new(None);
+
+/// Registers (or clears) the factory consulted by `Endpoint::new`.
+pub fn set_socket_factory(factory: Option<SocketFactory>) {
+    *SOCKET_FACTORY.write().unwrap() = factory;
+}
+
+pub(crate) fn socket_override(
+    socket: &std::net::UdpSocket,
+) -> Option<std::sync::Arc<dyn quinn::AsyncUdpSocket>> {
+    SOCKET_FACTORY.read().unwrap().as_ref().and_then(|f| f(socket))
+}
